@@ -1103,4 +1103,15 @@ Proof.
   destruct (N.ltb_spec (now st) d); [lia|]. unfold register. destruct (l_reg _); cbn; auto.
 Qed.
 
+(* Resume;Resume on a reachable state of any script *)
+Lemma resume_resume_run W kinds os f ys rest :
+  let st := run L (init W kinds) os in
+  err st = None -> paused st = true -> wq st = IResume :: IResume :: rest ->
+  let '(st2, ys2) := accept_all L (resumed (set_wq st (IResume :: rest) (wpend st))) ys in
+  paused st2 = false /\
+  exists ext, wq st2 = IResume :: rest ++ ext /\
+    (err st2 = None ->
+     handle_waker L (S (S f)) st ys = handle_waker L f (set_wq st2 (rest ++ ext) (wpend st2)) ys2).
+Proof. intros st. apply resume_resume_eq. apply reachable_r. Qed.
+
 End All.
